@@ -624,6 +624,104 @@ UNITS.append(U_LOAD)
 
 
 # =====================================================================================================================
+# C07 / C10: `x op= v` on a NAME -- which variable is read and written
+OPASSIGN_SPEC = r"""
+// the operator table of bin_op_assign (unit c08_opassign, K-t: `x op= v` computes x op v): None = failure
+pub uninterp spec fn combined(op: Seq<char>, current: Primitive, value: Primitive) -> Option<Primitive>;
+#[verifier::external_body]
+pub fn combine(op: &VString, bundle: &Handle, value: &Primitive) -> (r: Result<Primitive, VErr>)
+    ensures r is Ok <==> combined(text_of(op), cell_value(cell_id(bundle)), *value) is Some, r is Ok ==> r->Ok_0 == combined(text_of(op), cell_value(cell_id(bundle)), *value)->Some_0
+{ unimplemented!() }
+// writes into variable cells, as a log (cell, value)
+pub struct WriteLog { pub w: Ghost<Seq<(int, Primitive)>> }
+impl Handle {
+    #[verifier::external_body] pub fn verif_set(&self, v: Primitive, log: &mut WriteLog) ensures final(log).w@ == old(log).w@.push((cell_id(self), v)) { unimplemented!() }
+}
+pub fn opt_ctx<'a>(o: Option<&'a VString>) -> (r: Result<&'a VString, VErr>) ensures o is Some <==> r is Ok, r is Ok ==> Some(r->Ok_0) == o
+{ match o { Some(x) => Ok(x), None => Err(VErr) } }
+pub fn opt_ctx_h(o: Option<Handle>) -> (r: Result<Handle, VErr>) ensures o is Some <==> r is Ok, r is Ok ==> Some(r->Ok_0) == o
+{ match o { Some(x) => Ok(x), None => Err(VErr) } }
+pub fn opt_ctx_p<'a>(o: Option<&'a Primitive>) -> (r: Result<&'a Primitive, VErr>) ensures o is Some <==> r is Ok, r is Ok ==> Some(r->Ok_0) == o
+{ match o { Some(x) => Ok(x), None => Err(VErr) } }
+"""
+
+
+def build_opassign_named(repo):
+    from vlib.extract import find_block_after
+    src = Source(repo)
+    log = []
+    names = ["get_last_op_item", "set_last_op_item", "load_callback_variable"]
+    have_lex = True
+    try:
+        src.fn(CTXF, "load_lexical", "impl < 'a > Ctx < 'a >")
+    except Undecided:
+        have_lex = False
+    ctx = ctx_impl(src, log, names)
+    f = src.fn(INSTR, "bin_op_assign", "pub mod implementations")
+    try:
+        _, o, c = find_block_after(f["body"], "if let Some ( name ) = args . get ( 1 )")
+    except Exception as e:
+        raise Undecided(f"bin_op_assign: the named branch `if let Some(name) = args.get(1)` not found: {e}")
+    head = f["body"][:f["body"].index("if")]
+    frag = head + ["let", "name", "=", "arg1", ";"] + f["body"][o + 1:c] + ["Ok", "(", "(", ")", ")"]
+    log.append(("R0", "fn bin_op_assign { let op = ..; if let Some(name) = args.get(1) { NAMED } else { POINTER } }", "fn bin_op_assign_named(name) { let op = ..; NAMED }", "fragment: the branch for a variable name (the pointer branch: C08.opassign.pointer.*)"))
+    extra = [
+        Rule("R9", "args . first ( ) . context ( $m ) ?", "opt_ctx ( args_first ( args ) ) ?", why="Option::context"),
+        Rule("R9", "ctx . load_variable ( name ) . with_context ( $$c ) ?", "opt_ctx_h ( ctx . load_variable ( name ) ) ?", why="Option::with_context"),
+        Rule("R9", "ctx . load_lexical ( name ) . with_context ( $$c ) ?", "opt_ctx_h ( ctx . load_lexical ( name ) ) ?", why="Option::with_context"),
+        Rule("R13", "let value : & mut Primitive = ctx . get_last_op_item_mut ( ) . context ( $m ) ? ;", "let value : & Primitive = opt_ctx_p ( ctx . get_last_op_item ( ) ) ? ;", why="&mut to the top element -> read, then set_last_op_item (same final stack)"),
+        Rule("R6", "let result = { let no_hp = value . move_out_of_heap_primitive_borrow ( ) ? ; let no_mut : & Primitive = & no_hp ; match op . as_str ( ) { $$arms } } ;",
+             "let no_hp = move_out_borrow ( value ) ? ; let result = combine ( op , & bundle , & no_hp ) ? ;", why="the operator table: its own obligations C08.opassign.named.* (K-t, verbatim text); here an abstract function of (operator, current content, operand)"),
+        Rule("R10", "bundle . set_primitive ( result . clone ( ) ) ;", "bundle . verif_set ( clone_prim ( & result ) , wlog ) ;", why="write into the variable's cell (explicit write log)"),
+        Rule("R13", "* value = result ;", "ctx . set_last_op_item ( result ) ;", why="write through the &mut -> set_last_op_item"),
+    ]
+    body = qualify_variants(list(frag), log)
+    b = translate(body, extra + HANDLER_RULES + GENERIC_RULES, log, "implementations::bin_op_assign[named]")
+    check_closed(b, "bin_op_assign[named]")
+    lex = ""
+    if have_lex:
+        fl = src.fn(CTXF, "load_lexical", "impl < 'a > Ctx < 'a >")
+        bl = translate(fl["body"], [], log, "Ctx::load_lexical")
+        check_closed(bl, "Ctx::load_lexical")
+        lex = f"""
+impl Ctx {{
+    //@ OBL C07.ctx.load_lexical
+    pub fn load_lexical(&self, name: &VString) -> (r: Option<Handle>)
+        ensures r is Some <==> denoted(self, text_of(name)) is Some, r is Some ==> cell_id(&r->Some_0) == denoted(self, text_of(name))->Some_0
+    {{
+{render(bl, 2)}
+    }}
+}}
+"""
+    gen = header(log, f"{INSTR}: bin_op_assign (named branch); {CTXF}: Ctx methods") + prelude("ctx.rs") + ctx + LOAD_SPEC + OPASSIGN_SPEC + lex + f"""
+//@ OBL C07.opassign.named
+// `x op= v`: x is the variable the name denotes LEXICALLY -- the one `load x` reads (own variables, then captured ones, then the call
+// stack) -- never a caller's same-named local; its cell receives x op v, and that value is also the expression's result
+pub fn bin_op_assign_named(ctx: &mut Ctx, args: &Vec<VString>, arg1: &VString, wlog: &mut WriteLog) -> (r: Result<(), VErr>)
+    requires args@.len() >= 2, args@[1] == *arg1,
+    ensures
+        r is Ok ==> denoted(old(ctx), text_of(arg1)) is Some && old(ctx).stack@.len() > 0 && moved_out(old(ctx).stack@.last()) is Some && ({{
+            let cell = denoted(old(ctx), text_of(arg1))->Some_0; let v = combined(text_of(&args@[0]), cell_value(cell), moved_out(old(ctx).stack@.last())->Some_0);
+            v is Some && final(wlog).w@ == old(wlog).w@.push((cell, v->Some_0)) && final(ctx).stack@ == old(ctx).stack@.drop_last().push(v->Some_0) }}),
+        r is Err ==> final(wlog).w@ == old(wlog).w@,
+        rest(final(ctx)) == rest(old(ctx)),
+{{
+{render(b, 1)}
+}}
+}} // verus!
+fn main() {{}}
+"""
+    obls = ctx_obls(names, ["C07"]) + ([Obl("C07.ctx.load_lexical", ["C07", "C10"], fn="Ctx::load_lexical", desc="Ctx::load_lexical: the function's own variables, then its captured variables, then the rest of the call stack")] if have_lex else []) + [
+        Obl("C07.opassign.named", ["C07", "C10", "C01"], fn="bin_op_assign[named]", desc="bin_op_assign NAME: reads and writes the variable the name denotes lexically (as `load` does); the cell receives x op v; the result is left on the stack")]
+    return gen, obls, log
+
+
+U_OPN = VUnit("c07_opassign_named", ["C07", "C10", "C01"], "x op= v on a name: which variable is read and written", build_opassign_named)
+U_OPN.assumes = ["fragment: the named branch of bin_op_assign; the operator table is abstract here (C08.opassign.named.*)", "Stack::find_name / find_name_in_function abstract (unit c07_stack); gc cell semantics assumed"]
+UNITS.append(U_OPN)
+
+
+# =====================================================================================================================
 # C11: `export name` -- the export table shares the module variable's cell
 EXPORT_SPEC = r"""
 #[verifier::external_body] pub struct Exports { x: usize }
